@@ -186,6 +186,9 @@ func runC06(h *H) {
 		if k%8 == 3 {
 			// a very popular peer: one column with thousands of entries (a long row of the transpose)
 			n = 2500 + g.intn(1500)
+			if k == 3 {
+				n = 6200 + g.intn(2500) // well beyond any plausible chunking threshold (4096, 6144, …)
+			}
 			c, p = g.hubInputs(n)
 			g.count("hub-column")
 		}
@@ -525,9 +528,11 @@ func runC07(h *H) {
 			h.emit(h.line("C07", "after").Str("transpose").Int(n).Bar().Bool(false).Bool(same))
 		}
 	}
+	// cancellation of a swap-out (Mmap polls the context once per row): a cancelled Mmap — of a fresh, a mapped,
+	// or a mapped-and-since-modified matrix — must leave the matrix, its rows and its mapping intact
+	runC12As(h, "C07", h.budget(60, 600), true)
 }
 
-// canonical inputs in which peer 0 is trusted by every other peer (a transposed row with n-1 entries)
 func (g *G) hubInputs(n int) (*sparse.Matrix, *sparse.Vector) {
 	m := &sparse.CSMatrix{MajorDim: n, MinorDim: n, Entries: make([][]sparse.Entry, n)}
 	for i := 1; i < n; i++ {
